@@ -436,3 +436,80 @@ def run(rec, F, S):
     run_parser(rec, F, S)
     run_lowering(rec, F, S)
     run_handlers(rec, F)
+
+
+def run_scanner_lines(rec, S):
+    """C18: the line table starts in the scanner — every loop that swallows arbitrary characters counts the newlines"""
+    R = rec.rule("F1.line-scan", "every scanner loop that consumes arbitrary characters (string literals, whitespace) has an explicit newline arm that calls new_line(): line numbers recorded after a multi-line token stay true")
+    n = 0
+
+    def is_char_pat(p):
+        k = p.get("p")
+        if k == "lit":
+            return p["v"].startswith("'") or len(p["v"]) == 1 or p["v"] in ("\n", "\\")
+        if k == "ts" and p["elems"]:
+            return any(is_char_pat(x) for x in p["elems"])
+        if k == "or":
+            return any(is_char_pat(x) for x in p["cases"])
+        return False
+
+    def is_newline_pat(p):
+        k = p.get("p")
+        if k == "lit":
+            return p["v"] in ("\n", "'\n'", "'\\n'")
+        if k == "ts":
+            return any(is_newline_pat(x) for x in p["elems"])
+        if k == "or":
+            return any(is_newline_pat(x) for x in p["cases"])
+        return False
+
+    def is_catch_all(p):
+        k = p.get("p")
+        if k in ("wild", "ident"):
+            return True
+        if k == "ts" and lastseg(p["path"]) == "Some" and p["elems"]:
+            return p["elems"][0].get("p") in ("wild", "ident")
+        return False
+
+    def may_continue(body):
+        if body.get("e") in ("return", "break"):
+            return False
+        if body.get("e") == "block" and body["stmts"]:
+            last = body["stmts"][-1]
+            e = last.get("e") if last.get("s") == "expr" else None
+            if e is not None and e.get("e") in ("return", "break"):
+                return False
+        return True
+    for cont, it in S.walk_items(SCANNER):
+        if it.get("k") != "fn" or any(c[0] == "mod" for c in cont):
+            continue
+        for loop in [x for x in walk_expr(it["body"]) if x.get("e") in ("loop", "while")]:
+            consumes = any(x.get("e") == "mcall" and x["m"] in ("next", "advance", "next_if") for x in walk_expr(loop["body"]))
+            if not consumes:
+                continue
+            for m in [x for x in walk_expr(loop["body"]) if x.get("e") == "match"]:
+                arms = m["arms"]
+                if not any(is_char_pat(a["pat"]) for a in arms):
+                    continue
+                swallow = [a for a in arms if is_catch_all(a["pat"]) and may_continue(a["body"])]
+                if not swallow:
+                    continue
+                n += 1
+                nl = [a for a in arms if is_newline_pat(a["pat"])]
+                ok = bool(nl) and all(any(x.get("e") == "mcall" and x["m"] == "new_line" for x in walk_expr(a["body"])) for a in nl)
+                # the newline arm must come before the catch-all
+                if ok:
+                    ok = arms.index(nl[0]) < arms.index(swallow[0])
+                rec.inst(R, "%s: loop @%d" % (it["name"], loop["line"]), ok=ok, loc=L(SCANNER, m["line"]))
+                if not ok:
+                    rec.finding(R, "F1.line-scan/%s" % it["name"], "Scanner::%s swallows arbitrary characters in a loop without an explicit newline arm that calls new_line(): a newline inside such a token is not counted and every later line number in the file is too small" % it["name"], loc=L(SCANNER, m["line"]))
+    rec.floor(R, "character-swallowing scanner loops", n, 1)
+    # new_line records the current offset
+    f = None
+    for cont, it in S.walk_items(SCANNER):
+        if it.get("k") == "fn" and it["name"] == "new_line" and not any(c[0] == "mod" for c in cont):
+            f = it
+    ok = f is not None and any(x.get("e") == "mcall" and x["m"] == "push" and "line_offsets" in synq.src(x["recv"]) for x in walk_expr(f["body"]))
+    rec.inst(R, "new_line pushes onto line_offsets", ok=ok, loc=L(SCANNER, f["line"] if f else 0))
+    if not ok:
+        rec.finding(R, "F1.line-scan/new_line", "Scanner::new_line no longer records the offset in line_offsets", loc=L(SCANNER, f["line"] if f else 0))
